@@ -284,6 +284,12 @@ class FmtModel:
             if isinstance(st, ast.Assign) and len(st.targets) == 1 and isinstance(st.targets[0], ast.Name):
                 env[st.targets[0].id] = self._ev(st.value, env)
                 continue
+            if isinstance(st, ast.Assign) and len(st.targets) == 1 and isinstance(st.targets[0], (ast.Tuple, ast.List)) and all(isinstance(t_, ast.Name) for t_ in st.targets[0].elts):
+                v_ = self._ev(st.value, env)
+                if isinstance(v_, (tuple, list)) and len(v_) == len(st.targets[0].elts):
+                    for t_, x_ in zip(st.targets[0].elts, v_):
+                        env[t_.id] = x_
+                    continue
             if isinstance(st, ast.If):
                 self._block(st.body if self._truth(self._ev(st.test, env)) else st.orelse, env)
                 continue
